@@ -42,6 +42,13 @@ func symbolToIndexSymbol(name string) IndexSymbol {
 	if len(name) == 0 {
 		return IndexSymbol{}
 	}
+	if strings.Contains(name, "[") {
+		// Names of generic types, and of methods on (instantiated) generic
+		// types, include type parameters or arguments. The index only knows
+		// the plain names, and the calls it finds are those of the generic
+		// methods, so we cannot use it for these symbols.
+		return IndexSymbol{}
+	}
 	if name[0] == '(' {
 		end := strings.IndexAny(name, ")")
 		// Ensure there's a ), and also that there are at least two more
